@@ -15,14 +15,14 @@ def expected(kind):
 
 
 def verify_contract(src, K, shape, chips='int', cuts=None, timeout_ms=10000, configure=None, unwind=16,
-                    keep_smt=0, only=None, with_state=True, arg_makers=None, tag=None):
+                    keep_smt=0, only=None, with_state=True, arg_makers=None, tag=None, setup=None):
     """returns dict(function, shape, chips, build_s, results=[...], error=None|str)"""
     t0 = time.time()
     out = {'function': K.target, 'contract': f'{K.__module__}.{K.__qualname__}', 'shape': shape.as_dict(),
            'chips': chips, 'results': [], 'error': None, 'notes': []}
     try:
         vc = FunctionVC(src, K, shape, chips=chips, cuts=cuts, unwind=unwind, configure=configure,
-                        with_state=with_state, arg_makers=arg_makers)
+                        with_state=with_state, arg_makers=arg_makers, setup=setup)
         if tag:
             vc.shape.tag = tag
         obs = vc.build()
